@@ -22,6 +22,7 @@ import (
 	"time"
 
 	"connectrpc.com/conformance/internal"
+	"connectrpc.com/conformance/internal/tracer"
 	conformancev1 "connectrpc.com/conformance/internal/gen/proto/go/connectrpc/conformance/v1"
 	"connectrpc.com/conformance/internal/verifkit"
 	"google.golang.org/protobuf/proto"
@@ -186,8 +187,11 @@ func vfWantAspects(a, e vfTup) map[string]bool {
 	return want
 }
 
-func vfCompareAspects(rep *verifkit.Report, where string, a, e vfTup, name string, msgs []string, innerCalled bool, extraAllowed map[string]bool) {
+func vfCompareAspects(rep *verifkit.Report, where string, a, e vfTup, name string, msgs []string, innerCalled bool, extraAllowed map[string]bool, alsoWanted ...string) {
 	want := vfWantAspects(a, e)
+	for _, k := range alsoWanted {
+		want[k] = true
+	}
 	got := map[string]bool{}
 	for _, m := range msgs {
 		if !strings.HasPrefix(m, name+": ") {
@@ -516,17 +520,31 @@ func vfTimeoutClass(s string) string {
 // a plain HTTP client sends conforming and deviating Connect unary requests;
 // stderr lines are the observation.
 func TestVerifC12Wire(t *testing.T) {
-	rep := verifkit.Begin("C12", "wire", "real RunInReferenceMode servers on {HTTP/1.1, h2c, HTTP/1.1+TLS, h2+TLS, h2+mTLS presenting a certificate}; plain net/http client sends a Connect unary request conforming to actual tuple, expectation headers range over single-aspect deviations (thorough: random expected tuples too); distinct = (transport, expected tuple)")
+	rep := verifkit.Begin("C12", "wire", "real RunInReferenceMode servers on {HTTP/1.1, h2c, HTTP/1.1+TLS, h2+TLS, h2+mTLS presenting a certificate}; each with and without a wire tracer; plain net/http client sends a Connect unary request (also the BidiStream procedure, and requests with HTTP trailers) conforming to actual tuple, expectation headers range over single-aspect deviations (thorough: random expected tuples too); distinct = (transport, expected tuple)")
 	defer rep.Write()
 	body, _ := proto.Marshal(&conformancev1.UnaryRequest{})
 	type transport struct {
 		name               string
 		ver                int
 		tls, mtls, present bool
+		traced             bool
 	}
-	transports := []transport{{"h1", 1, false, false, false}, {"h2c", 2, false, false, false}, {"h1-tls", 1, true, false, false}, {"h2-tls", 2, true, false, false}, {"h2-mtls-cert", 2, true, true, true}}
+	transports := []transport{{"h1", 1, false, false, false, false}, {"h2c", 2, false, false, false, false}, {"h1-tls", 1, true, false, false, false}, {"h2-tls", 2, true, false, false, false}, {"h2-mtls-cert", 2, true, true, true, false}}
 	rng := verifkit.Stream("c12wire")
+	var runs []transport
 	for _, tr := range transports {
+		runs = append(runs, tr)
+		traced := tr
+		traced.name += "+tracer"
+		traced.traced = true
+		runs = append(runs, traced)
+	}
+	for _, tr := range runs {
+		// the real server runs with or without a wire tracer (the runner's --trace); the checks must not care
+		vfServerTracer = nil
+		if tr.traced {
+			vfServerTracer = &tracer.Tracer{}
+		}
 		sreq := &conformancev1.ServerCompatRequest{Protocol: conformancev1.Protocol_PROTOCOL_CONNECT, HttpVersion: conformancev1.HTTPVersion(tr.ver), UseTls: tr.tls}
 		if tr.mtls {
 			sreq.ClientTlsCert = []byte("?")
@@ -563,6 +581,24 @@ func TestVerifC12Wire(t *testing.T) {
 			name := fmt.Sprintf("Wire/%s/%d", tr.name, i) + []string{"", " 100%", " %d %s %v", " a: b", " %", "%%/x", " %!s(MISSING)"}[i%7]
 			hreq, _ := http.NewRequest("POST", base+"/connectrpc.conformance.v1.ConformanceService/Unary", bytes.NewReader(body))
 			hreq.Header.Set("Content-Type", "application/proto")
+			var alsoWanted []string
+			switch i % 5 {
+			case 3:
+				// the bidi procedure (the server has a shim that presents HTTP/1.1 bidi requests as HTTP/2 to the RPC library)
+				bidi, _ := proto.Marshal(&conformancev1.BidiStreamRequest{})
+				env := append([]byte{0, 0, 0, 0, byte(len(bidi))}, bidi...)
+				hreq, _ = http.NewRequest("POST", base+"/connectrpc.conformance.v1.ConformanceService/BidiStream", bytes.NewReader(env))
+				hreq.Header.Set("Content-Type", "application/connect+proto")
+				rep.Count("wire_bidi_procedure", 1)
+			case 4:
+				// request trailers are never expected
+				hreq, _ = http.NewRequest("POST", base+"/connectrpc.conformance.v1.ConformanceService/Unary", io.NopCloser(bytes.NewReader(body)))
+				hreq.Header.Set("Content-Type", "application/proto")
+				hreq.ContentLength = -1
+				hreq.Trailer = http.Header{"X-Request-Trailer": {"sent"}}
+				alsoWanted = append(alsoWanted, "trailers")
+				rep.Count("wire_request_trailers", 1)
+			}
 			hreq.Header.Set("X-Test-Case-Name", name)
 			vfExpectHeaders(hreq.Header, e)
 			before := len(srv.stderr.Lines())
@@ -595,11 +631,14 @@ func TestVerifC12Wire(t *testing.T) {
 				rep.Inconcl(fmt.Sprintf("%s: client spoke HTTP/%d instead of %d", name, resp.ProtoMajor, tr.ver))
 				continue
 			}
-			vfCompareAspects(rep, "wire-"+tr.name, a, e, name, mine, true, nil)
+			vfCompareAspects(rep, "wire-"+tr.name, a, e, name, mine, true, nil, alsoWanted...)
 		}
 		srv.Stop()
 	}
 	rep.Sample(map[string]any{"transport": "h2-tls", "expected": "client cert", "want_feedback": []string{"cert"}})
+	vfServerTracer = nil
+	rep.RequireMin("wire_bidi_procedure", 10)
+	rep.RequireMin("wire_request_trailers", 10)
 	rep.RequireMin("wire_conforming", 5)
 	rep.RequireMin("wire_deviating", 40)
 }
